@@ -200,7 +200,9 @@ def acc_cases(rng, tier):
     pick = [c for c in base if c.tag == "acc-starve"] + [c for c in base if c.tag != "acc-starve" and "ACC emfile" in c.ops[:-2]][:40 if tier == "quick" else 400]
     for c in pick:
         clob.append(vlib.Case(c.cid + "_clob", "acc clobber", c.ops, "acc-clobber"))
-    return cases + clob + loop_cases(rng, tier)
+    # REVIEW_E E-4: the free-running idle loop (real time-out, real signals): must not go round without a reason
+    idle = [vlib.Case("idle%d_%d" % (ms, k), "idle %d %d" % (ms, k), ["GO"], "idle") for (ms, k) in ((120, 0), (200, 3), (300, 8))]
+    return cases + clob + idle + loop_cases(rng, tier)
 
 
 def run(chk, replay=None):
@@ -213,7 +215,7 @@ def run(chk, replay=None):
     sigs = set()
     nloop_intr = 0
     clob_bad = []     # fails only when the logger's sink changes errno
-    if replay and not re.search(r"^case \S+ (acc|loop)\b", open(replay).read(), re.M):
+    if replay and not re.search(r"^case \S+ (acc|loop|idle)\b", open(replay).read(), re.M):
         acases = []
         ccases = connlib.load_cases(replay)
     elif replay:
@@ -226,7 +228,7 @@ def run(chk, replay=None):
         for i in range(n):
             ccases.append(connlib.gen_case(chk.rng, "f%d" % i, "faults", maxops=22 if chk.tier == "quick" else 40))
     for env, tag in (({}, "epoll"), ({"MUDUO_USE_POLL": "1"}, "poll")):
-        cs = acases if tag == "epoll" else [c for c in acases if c.header == "loop"]
+        cs = acases if tag == "epoll" else [c for c in acases if c.header == "loop" or c.header.startswith("idle")]
         if not cs:
             continue
         io, icr = vlib.run_batch_parallel(aimpl, cs, timeout=1200, env=env, jobs=8)
@@ -234,14 +236,19 @@ def run(chk, replay=None):
         for c in cs:
             chk.cov["evaluations"] += 1
             if c.cid in icr:
-                what = "the process aborted / crashed in the loop under a failed poll call" if c.header == "loop" else "listener driver crashed"
+                what = "the process aborted / crashed in the loop under a failed poll call" if (c.header == "loop" or c.header.startswith("idle")) else "listener driver crashed"
                 orc_bad.append((c, 0, "%s (%s, exit status %s): %s" % (what, tag, icr[c.cid][0], icr[c.cid][1][-400:].strip())))
                 continue
             li, lm = io.get(c.cid), mo.get(c.cid)
             if li is None:
                 orc_bad.append((c, 0, "no output"))
                 continue
-            if c.header == "loop":
+            if c.header.startswith("idle"):
+                ms, k = c.header.split()[1:3]
+                if len(li) < 2 or li[1] != "ok idle spin=0":
+                    orc_bad.append((c, 0, "the idle loop spins (%s): %s with nothing to do for %s ms but %s signal(s) and one quit() - expected at most %d passes" % (tag, li[1] if len(li) > 1 else "no output", ms, k, int(k) + 4)))
+                sigs.add(("idle", tag, c.header))
+            elif c.header == "loop":
                 for (i, msg) in loop_oracle(c, li):
                     orc_bad.append((c, i, "loop under interrupted polls (%s): %s" % (tag, msg)))
                 nloop_intr += sum(1 for op in c.ops if op[0] in "IE")
@@ -320,7 +327,7 @@ def run(chk, replay=None):
                        "scenarios, the same EMFILE histories under a logger sink that changes errno; loop: the real EventLoop::loop() with every pass scripted (what another thread "
                        "does meanwhile: queueInLoop / pipe readable / quit; how epoll_wait / poll returns: EINTR, another errno, the real call) - bursts of 1,2,3,7 interrupted "
                        "polls at EVERY position of 4 scenarios (alone / with the position's foreign activity during the first / last pass of the burst), k interrupted polls then one "
-                       "normal pass, random scripts, under BOTH back-ends; connection: corpus (empty sends under faults) + random scenarios with a fault-heavy scripted kernel (EAGAIN/EINTR/short writes at every write "
+                       "normal pass, random scripts, under BOTH back-ends; the free-running idle loop (real time-out, 0/3/8 real signals, quit from a helper thread; iteration() growth bounded) under both back-ends; connection: corpus (empty sends under faults) + random scenarios with a fault-heavy scripted kernel (EAGAIN/EINTR/short writes at every write "
                        "site, read errors, error events), each also run as its fault-free twin; non-trivial = contains at least one injected fault; distinct by op/fault pattern")
     chk.cov["cases_with_faults"] = nfault
     chk.add_obligation("correspondence: C11_Model (listener) and Conn_Model (connection) == real Acceptor / TcpConnection under scripted faults", not corr_bad)
